@@ -549,8 +549,9 @@ def report(prop, tier, seed, results, kres, t0):
                    "function": (e.get("fn") or {}).get("name") if isinstance(e.get("fn"), dict) else e.get("lemma"),
                    "real_location": e.get("real"), "tags": e.get("tags"), "clause": e.get("lines"),
                    "verifier_message": e.get("message"), "verifier_output": e.get("rendered"),
-                   "counterexample": e.get("counterexample"), "replayed_on_real_code": e.get("replayed"),
-                   "replay_output": e.get("replay_output"),
+                   "counterexample": e.get("counterexample"),
+                   "replayed_on_real_code": e.get("replayed") if e.get("replayed") is not None else (e.get("counterexample") or {}).get("replayed_on_real_code"),
+                   "replay_output": e.get("replay_output") or (e.get("counterexample") or {}).get("replay_output"),
                    "note": "obligation discharged on the pinned tree (baseline_obligations.json) and fails now"}
             if not doc["counterexample"]:
                 # try the paired Kani harness for a concrete input
